@@ -40,6 +40,17 @@ SelectVecOK(ones, nw, v) ==
     /\ \A i \in 1..Len(ones) : v[i] = SelectD(ones, nw, i - 1)
 IdxSelectD(ones) == [j \in 1..CeilDiv(Len(ones), K) |-> ones[K * (j - 1) + 1]]
 
+\* ---------------------------------------------------------------- long bitmaps (beyond 2^16 bits)
+\* A long bitmap is given by nw and the ascending list L of its 1-bits (sparse) or of its 0-bits (dense).
+OnesBeforeL(dense, L, i) == IF dense THEN i - Cardinality({j \in DOMAIN L : L[j] < i})
+                            ELSE Cardinality({j \in DOMAIN L : L[j] < i})
+BitAtL(dense, L, i) == LET m == \E j \in DOMAIN L : L[j] = i IN IF dense THEN (IF m THEN 0 ELSE 1) ELSE (IF m THEN 1 ELSE 0)
+\* the i-th 1-bit (from 0): sparse: L[i+1]; dense: i plus the number of 0-bits in front of it, i.e. the zeros
+\* L[j] with L[j] - (j-1) <= i  (L[j] - (j-1) = number of 1-bits before the j-th zero).  MC_BitmapSelect
+\* checks this closed form against the definition.
+SelectL(dense, L, i) == IF dense THEN i + Cardinality({j \in DOMAIN L : L[j] - (j - 1) <= i}) ELSE L[i + 1]
+NOnesL(dense, L, nw) == IF dense THEN W * nw - Len(L) ELSE Len(L)
+
 \* the single-result select of the second (unexported) select family: -1 for a negative i, the
 \* position of the i-th 1-bit, W*nw when there is no such bit
 Select1D(ones, nw, i) == IF i < 0 THEN -1 ELSE IF i < Len(ones) THEN ones[i + 1] ELSE W * nw
